@@ -130,16 +130,21 @@ fn send_after_body_us(period_us: u64, exit_us: Option<u64>, abort_us: Option<u64
 }
 
 fn interval_body(period_ms: u64, burn: bool, exit_after_ticks: u64, kill: bool) -> vsched::Body {
+    interval_body_us(period_ms * 1000, burn, exit_after_ticks, kill)
+}
+
+/// the same with the period in microseconds (sub-millisecond intervals)
+fn interval_body_us(period_us: u64, burn: bool, exit_after_ticks: u64, kill: bool) -> vsched::Body {
     Arc::new(move || {
         Box::pin(async move {
             let log = Log::default();
             let (a, ah) = Actor::spawn(None, Probe, args("A", Prog::default(), &log)).await.expect("A");
             let t0 = vsched::now();
-            let p = period_ms * MS;
-            let h = a.send_interval(Duration::from_millis(period_ms), move || {
+            let p = period_us * US;
+            let h = a.send_interval(Duration::from_micros(period_us), move || {
                 if burn {
                     // building the message takes half a period of (virtual) time
-                    vsched::burn(Duration::from_nanos(period_ms * MS / 2));
+                    vsched::burn(Duration::from_nanos(period_us * US / 2));
                 }
                 do_msg(1, vec![])
             });
@@ -318,6 +323,10 @@ pub fn plan(tier: &str) -> Plan {
     for (p, kill, busy) in [(5u64, false, false), (5, true, false), (5, true, true), (5, false, true), (0, false, false), (1, true, false)] {
         units.push(Unit::explore(Job::new(format!("{}/{p}ms/busy={busy}", if kill { "kill_after" } else { "exit_after" }), cfg.clone(), Some(bound), exit_kill_after_body(p, kill, busy))));
     }
+    // sub-millisecond intervals: the k-th message still arrives at k periods
+    for (p_us, burn, ticks) in [(200u64, false, 5u64), (500, true, 3), (999, false, 2), (1500, false, 3)] {
+        units.push(Unit::explore(Job::new(format!("interval/{p_us}us/burn={burn}/{ticks}ticks"), cfg.clone(), Some(bound), interval_body_us(p_us, burn, ticks, false))));
+    }
     for (p, ticks) in [(1u64, 0u64), (1, 2), (5, 1), (5, 3)] {
         units.push(Unit::explore(Job::new(format!("interval/{p}ms/abort-after-{ticks}ticks"), cfg.clone(), Some(bound), interval_abort_body(p, ticks))));
     }
@@ -327,7 +336,7 @@ pub fn plan(tier: &str) -> Plan {
     Plan {
         property: "C12",
         units,
-        rule: "period in {0, 1 us, 900 us, 1.5 ms, 1 ms, 5 ms} x target exit before / exactly at / after the expiry (stop or kill) x handle abort right after the handle was obtained (before the timer task ran) / before / at / after the expiry x interval with message construction that burns half a period x aborted interval handles x exit_after / kill_after on idle and busy actors and with their handle aborted half-way, on the virtual clock; a deviation-bounded DFS explores same-instant ties (timer vs. unrelated ready task vs. exit); oracle on exact virtual timestamps; non-trivial = execution with >= 1 branching decision".into(),
+        rule: "period in {0, 1 us, 900 us, 1.5 ms, 1 ms, 5 ms} x target exit before / exactly at / after the expiry (stop or kill) x handle abort right after the handle was obtained (before the timer task ran) / before / at / after the expiry x intervals of 200 us .. 5 ms with message construction that burns half a period x aborted interval handles x exit_after / kill_after on idle and busy actors and with their handle aborted half-way, on the virtual clock; a deviation-bounded DFS explores same-instant ties (timer vs. unrelated ready task vs. exit); oracle on exact virtual timestamps; non-trivial = execution with >= 1 branching decision".into(),
         assumptions: vec![
             "the seam's Interval (next_tick += period, the algorithm of the repository's async-std backend) stands in for tokio's Interval: the no-drift clause is decided for the loop in time.rs on top of it, not for tokio's timer wheel".into(),
             "computation takes zero virtual time unless the harness burns it".into(),
